@@ -17,7 +17,7 @@ TECHNIQUE = "exhaustive input lattice vs independent 40-digit ODE solution"
 LEVEL_TEXT = (
     "every point of the stated finite lattice (orders 1-4, nf 3-6, 6 complex gamma towers, all ordered "
     "coupling pairs of the lattice incl. a1=a0; QED: orders (1-4,1-2), a_em values, scale pairs) agrees "
-    "with the independent solution of the truncated DGLAP equation to 1e-11 relative; nothing is claimed "
+    "with the independent solution of the truncated DGLAP equation to 1e-13 relative; nothing is claimed "
     "between lattice points"
 )
 LEVEL_NOTE = (
@@ -26,12 +26,14 @@ LEVEL_NOTE = (
 )
 FLOOR_NONTRIVIAL = 50
 
-TOL = 1e-11
+# measured maxima on the unchanged tree: 8.4e-16 (QCD), 1.3e-15 (QED) (quick and thorough) -> >= x75 head-room; ln E is linear in
+# the beta-dependent integrals, so 1e-13 resolves relative errors of ~3e-11 in beta_1 and ~3e-11..3e-10 in beta_2, beta_3
+TOL = 1e-13
 REF_XCHECK = 1e-27
 
 LA_QUICK = [0.002, 0.005, 0.0125, 0.03, 0.05]
 LA_THOROUGH = [0.002, 0.003, 0.005, 0.008, 0.0125, 0.02, 0.03, 0.04, 0.05]
-LA_QED_QUICK = [0.005, 0.03, 0.05]
+LA_QED_QUICK = [0.002, 0.005, 0.03, 0.05]
 NFS = [3, 4, 5, 6]
 
 # gamma towers, |gamma_k| <= 10^k (two real, two complex, one with gamma_0 = 0, one on the bound)
@@ -68,6 +70,8 @@ TOWERS_QED = [
     ],
 ]
 AEMS_QUICK = [0.00058, 0.002]
+# a_em = 0 (0**0 in the contraction of the 2-D tower, vanishing beta_0 shift: must reduce to the QCD kernel): quick tier for tower 0
+AEMS_QUICK_TOWER0 = [0.0, 0.00058, 0.002]
 AEMS_THOROUGH = [0.0, 0.00058, 0.002]
 MU2_PAIRS = [[2.7225, 10000.0], [10000.0, 2.7225], [30.0, 30.0]]
 
@@ -197,7 +201,8 @@ def run(ctx):
             for nf in NFS:
                 for t in tq:
                     for a0 in laq:
-                        cases.append({"kind": "qed", "order": [o, q], "nf": nf, "tower": t, "a0": a0, "a1s": laq, "aems": aems})
+                        ae = AEMS_QUICK_TOWER0 if (t == 0 and not ctx.thorough()) else aems
+                        cases.append({"kind": "qed", "order": [o, q], "nf": nf, "tower": t, "a0": a0, "a1s": laq, "aems": ae})
     results = ctx.run_cases(cases, evaluate)
     npts = sum((r[1][3] or {}).get("points", 0) for r in results)
     ctx.extra.update(points_compared=npts)
@@ -205,7 +210,7 @@ def run(ctx):
         f"complete product: QCD order 1-4 x nf 3-6 x {len(TOWERS)} fixed complex gamma towers (|gamma_k|<=10^k; real, "
         f"complex, gamma_0=0, on the bound) x all ordered pairs (a0,a1) of the {len(la)}-value coupling lattice "
         f"{la} incl. a1=a0, every method the dispatcher routes to the exact kernel (all 8 at LO); QED: order "
-        f"(1-4,1-2) x nf x {len(list(tq))} 2-D towers x pairs of {laq} x a_em in {aems} x 3 scale pairs "
+        f"(1-4,1-2) x nf x {len(list(tq))} 2-D towers x pairs of {laq} x a_em in {aems}{'' if ctx.thorough() else ' (tower 0 also at a_em = 0)'} x 3 scale pairs "
         "(up, down, equal), fixed_alphaem_exact and the stepped dispatcher with constant a_em (1 and 3 steps); a case "
         "= one (order, nf, tower, a0) with all its a1; non-trivial = contains a1 != a0"
     )
